@@ -285,6 +285,7 @@ def run(P, R, L):
     K.grd12_reuse_only_complete_logs(P, R, L)
     K.grd12_cursor_counts_complete_reads(P, R, L)
     K.grd12_fully_consumed_is_exact(P, R, L)
+    K.bundle_recovery(P, R, L)
     R.not_decided += ["partial-write behaviour of the filesystem", "what recovery computes from a given on-disk image",
                       "batch atomicity at byte level (the reassembly clause is C12/TS-1)"]
     R.assumptions += ["FileSystem::rename is atomic; create_file(append=false) truncates",
